@@ -230,12 +230,18 @@ Fixpoint hoist_main (ds : list decl) : list decl :=
   | [] => []
   | [DFunc f ps res body] =>
       if str_eqb f main_name
-      then let '(vs, rest) := split_leading_vars body in vs ++ [DFunc f ps res rest]
+      then let '(vs, rest) := split_leading_vars body in
+           match rest with
+           | SNil => vs                       (* nothing is left of main: no entry at all in the text *)
+           | _ => vs ++ [DFunc f ps res rest]
+           end
       else ds
   | d :: t => d :: hoist_main t
   end.
+Definition has_main (ds : list decl) : bool :=
+  existsb (fun d => match d with DFunc g _ _ _ => str_eqb g main_name | _ => false end) ds.
 Definition printed_view (q : prog) : prog :=
-  if pshadow q then Prog (hoist_main (pdecls q)) (pshadow q) (pnopkg q) else q.
+  if pshadow q then let ds := hoist_main (pdecls q) in Prog ds (has_main ds) (pnopkg q) else q.
 
 (* the same without the deletion of the unused import (used by the semantic theorem) *)
 Definition gopstyle_keep (p : prog) : prog :=
@@ -531,4 +537,65 @@ Definition run (n : nat) (md : mode) (p : prog) : M trace :=
       | None => Panic
       end
   | Panic => Panic | OutOfFuel => OutOfFuel
+  end.
+
+(* ================================================================ side conditions of the preservation theorem *)
+
+(* builtins the formatter can substitute for an fmt function *)
+Definition is_subst (b : name) : bool :=
+  existsb (fun ul => str_eqb (rename_builtin (snd ul)) b) c25_print_funcs.
+
+(* every binder of the term (:=, var, parameters of function literals / lambdas) satisfies ok *)
+Fixpoint good_e (ok : name -> bool) (e : expr) : bool :=
+  match e with
+  | EInt _ | EStr _ | EVar _ | EField _ _ => true
+  | EAdd a b => good_e ok a && good_e ok b
+  | ECall _ args => good_es ok args
+  | ESel _ _ args => good_es ok args
+  | EFuncLit ps _ body => forallb ok ps && good_ss ok body
+  | ELambda ps rhs => forallb ok ps && good_es ok rhs
+  | ELambda2 ps body => forallb ok ps && good_ss ok body
+  | ENew _ e1 => good_e ok e1
+  end
+with good_es (ok : name -> bool) (es : exprs) : bool :=
+  match es with ENil => true | ECons e t => good_e ok e && good_es ok t end
+with good_s (ok : name -> bool) (s : stmt) : bool :=
+  match s with
+  | SExpr _ e => good_e ok e
+  | SDefine x e => ok x && good_e ok e
+  | SVar x e => ok x && good_e ok e
+  | SIf c thn els => good_e ok c && good_ss ok thn && good_ss ok els
+  | SReturn r => good_es ok r
+  | SBlock b => good_ss ok b
+  end
+with good_ss (ok : name -> bool) (ss : stmts) : bool :=
+  match ss with SNil => true | SCons s t => good_s ok s && good_ss ok t end.
+
+Definition good_decl (ok okf : name -> bool) (d : decl) : bool :=
+  match d with
+  | DImport _ _ | DType _ => true
+  | DVar x e => ok x && good_e ok e
+  | DFunc f ps _ b => okf f && forallb ok ps && good_ss ok b
+  | DMethod _ r _ ps _ b => ok r && forallb ok ps && good_ss ok b
+  end.
+
+Definition not_import (ds : list decl) (x : name) : bool :=
+  match sassoc x (imports_of ds) with Some _ => false | None => true end.
+
+(* no variable, parameter or receiver is named like an import *)
+Definition no_shadow (p : prog) : bool :=
+  forallb (good_decl (not_import (pdecls p)) (fun _ => true)) (pdecls p).
+(* no variable, parameter, receiver or function is named like a builtin the formatter substitutes *)
+Definition no_builtin_clash (p : prog) : bool :=
+  forallb (good_decl (fun x => negb (is_subst x)) (fun f => negb (is_subst f))) (pdecls p).
+(* no type has both a method M and its lower-case twin *)
+Definition no_case_twin (p : prog) : bool :=
+  let ms := methods_of (pdecls p) in
+  forallb (fun tm => negb (exported (fst (snd tm))) ||
+                     match find_method (fst tm) (lower_first (fst (snd tm))) ms with Some _ => false | None => true end) ms.
+(* imports precede the other declarations (every Go file) *)
+Fixpoint imports_first (ds : list decl) : bool :=
+  match ds with
+  | DImport _ _ :: t => imports_first t
+  | _ => forallb (fun d => match d with DImport _ _ => false | _ => true end) ds
   end.
